@@ -170,7 +170,7 @@ fn interpreter_route(lines: &[String]) -> Vec<(String, String, String)> {
 fn analyzer_route(thorough: bool) -> (u64, Vec<(String, String, String)>) {
     use abasic_core::verif::{parse_line_number, tokenize_skipping};
     let set = [
-        "10 PRINT 1", "", " ", "\r", "\t ", "20 X=\"\u{e9}\"", "30 REM x ", "PRINT", "10", "40 %", " 50 A$ = 1", "60 DATA a, b\r", "70 \"", "80 ?1;2", "\u{c}", "10 \u{a0}",
+        "10 PRINT 1", "", " ", "\r", "\t ", "20 X=\"\u{e9}\"", "30 REM x ", "PRINT", "10", "40 %", " 50 A$ = 1", "60 DATA a, b\r", "70 \"", "80 ?1;2", "\u{c}", "10 \u{a0}", "10 PRINT 12345", "10 PRINT B", "20 GOTO 99", "\u{a0}30 PRINT 1",
     ];
     let n = if thorough { 4 } else { 3 };
     let base = set.len() as u64;
@@ -192,6 +192,31 @@ fn analyzer_route(thorough: bool) -> (u64, Vec<(String, String, String)>) {
                     Ok(a) => a,
                     Err(p) => return Some((format!("analyzer panic {}", short_panic(&p)), p, text)),
                 };
+                // located diagnostics: the range is a token of the line it names (or the line number)
+                {
+                    let t3 = text.clone();
+                    let diag = guarded(move || {
+                        let a = abasic_core::SourceFileAnalyzer::analyze(t3);
+                        a.messages().iter().filter_map(|m| a.source_file_map().map_to_source(m)).collect::<Vec<_>>()
+                    });
+                    if let Ok(diag) = diag {
+                        for (dl, dr) in diag {
+                            let Some(line) = lines.get(dl) else { continue };
+                            let Some((_, skip)) = parse_line_number(line) else { continue };
+                            if let Ok(toks) = tokenize_skipping(line, skip) {
+                                let on_token = toks.iter().any(|t| t.1 == dr) || (dr.start <= skip && dr.end <= skip) || toks.is_empty();
+                                let joins = toks.iter().any(|t| t.1.start == dr.start) && toks.iter().any(|t| t.1.end == dr.end);
+                                if !on_token && !joins {
+                                    return Some((
+                                        "diagnostic range is not a token range of the line it names".into(),
+                                        format!("file {:?}: diagnostic at line {} range {:?}; tokens of that line {:?}", text, dl, dr, toks.iter().map(|t| t.1.clone()).collect::<Vec<_>>()),
+                                        text,
+                                    ));
+                                }
+                            }
+                        }
+                    }
+                }
                 if a.len() != lines.len() {
                     return Some(("not one token list per file line".into(), format!("{} lists for {} lines of {:?}", a.len(), lines.len(), text), text));
                 }
@@ -202,6 +227,14 @@ fn analyzer_route(thorough: bool) -> (u64, Vec<(String, String, String)>) {
                     };
                     if skip == 0 {
                         continue; // a line without a number is only warned about
+                    }
+                    // what is reported as the line number is blanks and digits, nothing else
+                    if !line[..skip].chars().all(|c| c == ' ' || c == '\t' || c == '\r' || c.is_ascii_digit()) {
+                        return Some((
+                            "line-number token covers something else than blanks and digits".into(),
+                            format!("file {:?}, line {} {:?}: the line number is said to end at byte {}", text, k, line, skip),
+                            text,
+                        ));
                     }
                     if let Ok(toks) = tokenize_skipping(line, skip) {
                         let h: Vec<std::ops::Range<usize>> = toks.iter().map(|t| t.1.clone()).collect();
